@@ -29,7 +29,10 @@ Definition s_retain (f : T -> K -> option bool * T) : M unit :=
 Fixpoint s_extend_loop (nx : T -> ans * T) (items : list K) : M unit :=
   match items with
   | [] => call_next nx
-  | k :: rest => call_next nx ;; _ <- s_insert k ;; s_extend_loop nx rest
+  | k :: rest =>
+      on_unwind (unwind_pairs E (List.map (fun x => (x, tt)) items)) (call_next nx) ;;
+      on_unwind (unwind_pairs E (List.map (fun x => (x, tt)) rest)) (_ <- s_insert k ;; ret tt) ;;
+      s_extend_loop nx rest
   end.
 Definition s_extend := s_extend_loop.
 (* src/set/from.rs: the set under construction is a local *)
